@@ -125,13 +125,13 @@ def finish(pid, tier, seed, prof, recs, libs, timeout, known, t0, a, extra_cov=N
                     traceback.print_exc()
             # replay must reproduce before the violation is reported
             path = runner.write_replay(pid, seed, small, v2, None)
-            ok, viol2, digest, _ = runner.replay_file(path, libs, timeout)
-            ok2, viol3, digest2, _ = runner.replay_file(path, libs, timeout)
+            ok, viol2, digest, _ = runner.replay_file(path, libs, timeout * 4)
+            ok2, viol3, digest2, _ = runner.replay_file(path, libs, timeout * 4)
             if not (ok and ok2) and v2.get("class") == "crash":
                 # crashes that stem from memory corruption depend on heap state: a few more attempts, and if the crash
                 # stays elusive it is reported as such (the original observation is recorded in the replay file)
                 for _k in range(4):
-                    okk, _, dg, _ = runner.replay_file(path, libs, timeout)
+                    okk, _, dg, _ = runner.replay_file(path, libs, timeout * 4)
                     if okk:
                         ok = ok2 = True
                         digest = digest2 = dg
